@@ -35,6 +35,9 @@ type c07Case struct {
 	// Proto: the receiver talks through the library's own length-prefixed byte
 	// stream (util.NewProtoStream over pipes) behind a bridge to the reference sender
 	Proto bool `json:"proto,omitempty"`
+	// Shrunk > 0: one regular file is announced this many bytes longer than the content
+	// the sender then has for it (it shrank between the sender's lstat and its read)
+	Shrunk int `json:"shrunk,omitempty"`
 	// Huge > 0: one more file of this size (with 1 MiB chunks: payloads at the 1 MiB mark)
 	Huge int `json:"huge,omitempty"`
 }
@@ -105,6 +108,9 @@ func genC07(t *rapid.T) *c07Case {
 		c.Many = rapid.SampledFrom([]int{70, 150, 400, 1100}).Draw(t, "nmany")
 	}
 	c.Proto = rapid.IntRange(0, 4).Draw(t, "proto") == 0
+	if rapid.IntRange(0, 4).Draw(t, "shrunk") == 0 {
+		c.Shrunk = rapid.SampledFrom([]int{1, 7, 40000}).Draw(t, "shrunkby")
+	}
 	if len(sc.Chunk) == 1 && sc.Chunk[0] == 1<<20 && rapid.Bool().Draw(t, "hugefile") {
 		c.Huge = 1<<20 + rapid.SampledFrom([]int{0, 1, 5, 1 << 20}).Draw(t, "hugeextra")
 	}
@@ -137,7 +143,11 @@ func c07Tree(c *c07Case) *h.Tree {
 // bridges the byte stream to the harness pair with its own framing codec.
 func c07ReceiveOverProtoStream(pair *h.Pair, dest string) (err error) {
 	toBridgeR, toBridgeW := io.Pipe()
-	toRecvR, toRecvW := io.Pipe()
+	// towards the receiver a kernel pipe (buffers: several frames can be waiting)
+	toRecvR, toRecvW, perr := os.Pipe()
+	if perr != nil {
+		return perr
+	}
 	stream := util.NewProtoStream(pair.R.Context(), toRecvR, toBridgeW)
 	var bw sync.WaitGroup
 	bw.Add(1)
@@ -168,7 +178,7 @@ func c07ReceiveOverProtoStream(pair *h.Pair, dest string) (err error) {
 		for {
 			var p types.Packet
 			if e := pair.R.RecvMsg(&p); e != nil {
-				toRecvW.CloseWithError(io.EOF)
+				toRecvW.Close()
 				return
 			}
 			body, _ := p.MarshalVT()
@@ -210,6 +220,15 @@ func c07Check(env *h.Env, c *c07Case) error {
 	tree := c07Tree(c)
 	mem := &h.MemFS{T: tree, LinkSizeFull: c.LinkFull}
 	stats := mem.Stats()
+	if c.Shrunk > 0 {
+		for _, st := range stats {
+			if os.FileMode(st.Mode).IsRegular() && st.Linkname == "" && st.Size > 0 {
+				st.Size += int64(c.Shrunk)
+				env.Class("announced-longer-than-sent")
+				break
+			}
+		}
+	}
 	data := map[string][]byte{}
 	for _, n := range tree.Nodes {
 		if n.Kind == h.KFile && n.LinkTo == "" {
